@@ -594,6 +594,64 @@ theorem delivered_system_absent_is_default (d : Defaults) (parse : Ident → CM)
   rw [hsec] at hf
   rw [fresh_section_absent true d.sys _ ls hf]
 
+/-- END TO END for the three pointer-only strategy sections (resource-threshold = index 0, resource-qos = 1, cpu-burst = 2):
+    the stored NodeSLO carries at every path entry <|> cluster <|> default of the CURRENT text for the CURRENT labels. -/
+theorem delivered_plain_layering (d : Defaults) (parse : Ident → CM) (hs : List HStep) (n : Nat) (ls : Labels)
+    (i : Ident) (c : Option Flat) (pre post : List NodeEntry) (e : NodeEntry) (p : Path)
+    (hn : lookupA (hrun d parse (World.init d) hs).nodes n = some ls)
+    (hcm : (hrun d parse (World.init d) hs).cm = some i)
+    (hpre : ∀ x ∈ pre, x.sel.matches ls = false) (he : e.sel.matches ls = true) :
+    ∃ spec, lookupA (hrun d parse (World.init d) hs).slos n = some spec ∧
+      ((parse i).thr = .ok c (pre ++ e :: post) →
+        (spec[0]?).map (fun t => get t p) = some (lay false e.strat (lay false c (get d.thr)) p)) ∧
+      ((parse i).qos = .ok c (pre ++ e :: post) →
+        (spec[1]?).map (fun t => get t p) = some (lay false e.strat (lay false c (get d.qos)) p)) ∧
+      ((parse i).burst = .ok c (pre ++ e :: post) →
+        (spec[2]?).map (fun t => get t p) = some (lay false e.strat (lay false c (get d.burst)) p)) := by
+  have h := stored_eq_recomputed_over_histories d parse hs n ls hn
+  have ht := cache_tracks_latest_data d parse hs i h.2 hcm
+  refine ⟨_, h.1, ?_, ?_, ?_⟩ <;> intro hsec <;>
+    simp only [nodeSpec, List.getElem?_cons_succ, List.getElem?_cons_zero, Option.map_some]
+  · rw [fresh_section_layering false d.thr _ _ c pre post e ls p ht.1 hsec hpre he (by simp) (by simp [RootObj]) (by simp [RootObj])]
+  · rw [fresh_section_layering false d.qos _ _ c pre post e ls p ht.2.1 hsec hpre he (by simp) (by simp [RootObj]) (by simp [RootObj])]
+  · rw [fresh_section_layering false d.burst _ _ c pre post e ls p ht.2.2.1 hsec hpre he (by simp) (by simp [RootObj]) (by simp [RootObj])]
+
+/-- … and a key removed from the ConfigMap (by an Update that only deletes it) puts every node back on the built-in default
+    of that section; host applications: the empty list. -/
+theorem delivered_removed_key_is_default (d : Defaults) (parse : Ident → CM) (hs : List HStep) (n : Nat) (ls : Labels) (i : Ident)
+    (hn : lookupA (hrun d parse (World.init d) hs).nodes n = some ls)
+    (hcm : (hrun d parse (World.init d) hs).cm = some i) :
+    ∃ spec, lookupA (hrun d parse (World.init d) hs).slos n = some spec ∧
+      ((parse i).thr = .absent → spec[0]? = some d.thr) ∧ ((parse i).qos = .absent → spec[1]? = some d.qos) ∧
+      ((parse i).burst = .absent → spec[2]? = some d.burst) ∧ ((parse i).sys = .absent → spec[3]? = some d.sys) ∧
+      ((parse i).host = .absent → spec[4]? = some noApps) := by
+  have h := stored_eq_recomputed_over_histories d parse hs n ls hn
+  have ht := cache_tracks_latest_data d parse hs i h.2 hcm
+  refine ⟨_, h.1, ?_, ?_, ?_, ?_, ?_⟩ <;> intro hsec <;>
+    simp only [nodeSpec, List.getElem?_cons_succ, List.getElem?_cons_zero]
+  · have hf := ht.1; rw [hsec] at hf; rw [fresh_section_absent false d.thr _ ls hf]
+  · have hf := ht.2.1; rw [hsec] at hf; rw [fresh_section_absent false d.qos _ ls hf]
+  · have hf := ht.2.2.1; rw [hsec] at hf; rw [fresh_section_absent false d.burst _ ls hf]
+  · have hf := ht.2.2.2.1; rw [hsec] at hf; rw [fresh_section_absent true d.sys _ ls hf]
+  · have hf := ht.2.2.2.2; rw [hsec] at hf
+    rw [hf (by simp)]; simp [selectNode, mergeHost]
+
+/-- host applications (not merged): the stored list is the first matching entry's of the CURRENT text. -/
+theorem delivered_host_first_match (d : Defaults) (parse : Ident → CM) (hs : List HStep) (n : Nat) (ls : Labels)
+    (i : Ident) (c : Option Flat) (pre post : List NodeEntry) (e : NodeEntry)
+    (hn : lookupA (hrun d parse (World.init d) hs).nodes n = some ls)
+    (hcm : (hrun d parse (World.init d) hs).cm = some i)
+    (hsec : (parse i).host = .ok c (pre ++ e :: post))
+    (hpre : ∀ x ∈ pre, x.sel.matches ls = false) (he : e.sel.matches ls = true) :
+    ∃ spec, lookupA (hrun d parse (World.init d) hs).slos n = some spec ∧ spec[4]? = some (e.strat.getD noApps) := by
+  have h := stored_eq_recomputed_over_histories d parse hs n ls hn
+  have ht := cache_tracks_latest_data d parse hs i h.2 hcm
+  refine ⟨_, h.1, ?_⟩
+  simp only [nodeSpec, List.getElem?_cons_succ, List.getElem?_cons_zero]
+  have hf := ht.2.2.2.2
+  rw [hsec] at hf
+  rw [hf (by simp), host_first_match _ c pre post e ls hpre he]
+
 /-! non-vacuity of the delivery theorems: a history with set → unset, twice -/
 section HistExamples
 def hxD : Defaults := { thr := [([0], -1)], qos := [([0], -1)], burst := [([0], -1)], sys := [([0], -1), ([1], 0), ([26], 100)] }
